@@ -23,28 +23,36 @@ from . import c01_rw as rw
 _SIMPLE_OPS = {"(", ")", "[", "]", "{", "}", ",", ":", ".", ";", "=", "+"}
 
 
+_RANK = {ch: i for i, ch in enumerate("abcdefghijklmnopqrstuvwxyz'")}
+
+
 def size_key(text):
-    """(#tokens, token cost, length, oddness, text): a well-founded order; smaller = simpler."""
+    """(#tokens, token cost, length, oddness, ranked text): a well-founded order; smaller = simpler.
+    `pass` is the cheapest token, then `a` / `1` / other keywords, then other names and literals; the
+    final tie-break prefers lower case and the single quote."""
     try:
         toks = [t for t in tokenize.generate_tokens(io.StringIO(text).readline) if t.type not in rw._SKIP]
     except (tokenize.TokenError, SyntaxError, ValueError):
-        return (10**6, 0, len(text), 0, text)
+        return (10**6, 0, len(text), 0, ())
     cost = 0
     for t in toks:
         if t.type == T.NAME:
-            if keyword.iskeyword(t.string):
+            if t.string == "pass":
                 continue
-            cost += 1 if t.string == "a" else (2 if len(t.string) == 1 and t.string.isascii() else 3)
+            if keyword.iskeyword(t.string):
+                cost += 2 if t.string in ("None", "True", "False") else 1
+            else:
+                cost += 1 if t.string == "a" else (2 if len(t.string) == 1 and t.string.isascii() else 3)
         elif t.type == T.OP:
             cost += 0 if t.string in _SIMPLE_OPS else 1
         elif t.type == T.NUMBER:
-            cost += 2 if t.string == "1" else 3
+            cost += 1 if t.string == "1" else 3
         elif t.type == T.STRING:
             cost += 4
         else:
             cost += 1
     odd = sum(1 for ch in text if not (" " <= ch <= "~" or ch == "\n"))
-    return (len(toks), cost, len(text), odd, text)
+    return (len(toks), cost, len(text), odd, tuple(_RANK.get(ch, 100 + ord(ch)) for ch in text))
 
 
 def _dedent_block(src, stmts, indent):
@@ -86,6 +94,22 @@ def _owns_rows(src, n):
     return first_ok and not tail.strip(" \t\r\n\f;")
 
 
+def _near_exprs(n):
+    """The outermost expression nodes below statement n (through withitems, keywords, handlers ...)."""
+    out = []
+
+    def walk(x):
+        for ch in ast.iter_child_nodes(x):
+            if isinstance(ch, ast.expr):
+                if hasattr(ch, "end_col_offset"):
+                    out.append(ch)
+            elif not isinstance(ch, ast.stmt):
+                walk(ch)
+
+    walk(n)
+    return out
+
+
 def _cpy(text, mode):
     try:
         return ast.parse(text, "<c01>", mode)
@@ -124,6 +148,8 @@ def candidates(text, mode):
                 ind = rw._indent_of(rows[r0]) if r0 < len(rows) else ""
                 if owns:
                     pre, post = "".join(rows[:r0]), "".join(rows[r1:])
+                    hrow = rows[n.lineno - 1]
+                    eol = hrow[len(hrow.rstrip("\r\n")) :] or "\n"
                     blocks = []
                     for fld in ("body", "orelse", "finalbody"):
                         sub = getattr(n, fld, None)
@@ -137,16 +163,23 @@ def candidates(text, mode):
                         blk = _dedent_block(src, sub, ind)
                         if blk:
                             yield pre + blk + post
-                    # hoist a child expression as an expression statement
-                    for ch in ast.iter_child_nodes(n):
-                        if isinstance(ch, ast.expr) and hasattr(ch, "end_col_offset") and not isinstance(n, ast.Expr):
+                        else:
+                            bs, be = src.span(sub[0])[0], src.span(sub[-1])[1]
+                            yield pre + ind + text[bs:be] + eol + post
+                    # hoist a nearest expression descendant as an expression statement
+                    if not isinstance(n, ast.Expr):
+                        for ch in _near_exprs(n):
                             cs, ce = src.span(ch)
-                            yield pre + ind + text[cs:ce] + "\n" + post
+                            yield pre + ind + text[cs:ce] + eol + post
                     # simplest compound statement around the same block: `if a:`
                     for sub in blocks[:1]:
                         blk = _dedent_block(src, sub, ind + " ")
                         if blk:
-                            yield pre + ind + "if a:\n" + blk + post
+                            yield pre + ind + "if a:" + eol + blk + post
+                        else:
+                            bs, be = src.span(sub[0])[0], src.span(sub[-1])[1]
+                            yield pre + ind + "if a:" + text[bs:be] + eol + post
+                            yield pre + ind + "if a:" + eol + ind + " " + text[bs:be] + eol + post
                 if not isinstance(n, ast.Pass):
                     s, e = src.span(n)
                     if getattr(n, "decorator_list", None):
@@ -243,8 +276,9 @@ def candidates(text, mode):
             q = t.string[-1]
             b0 = t.string.index(q)
             nq = 3 if t.string[b0 : b0 + 3] == q * 3 and len(t.string) - b0 >= 6 else 1
-            for i in range(b0 + nq, len(t.string) - nq):
-                yield text[:s] + t.string[:i] + t.string[i + 1 :] + text[e:]
+            for w in (2, 1):
+                for i in range(b0 + nq, len(t.string) - nq - w + 1):
+                    yield text[:s] + t.string[:i] + t.string[i + w :] + text[e:]
         elif t.type == T.FSTRING_START:
             fstack.append(t)
         elif t.type == T.FSTRING_END and fstack:
@@ -254,16 +288,17 @@ def candidates(text, mode):
             for p, q in (("f", "'"), ("f", t.string), ("f", t.string[0]), (st.string[: -len(t.string)], "'")):
                 if (p + q, q) != (st.string, t.string):
                     yield text[:s0] + p + q + mid + q + text[e:]
+            for w in (2, 1):
+                for i in range(s1, s - w + 1):
+                    yield text[:i] + text[i + w :]
         elif t.type == T.FSTRING_MIDDLE and t.string:
             yield text[:s] + text[e:]
             yield text[:s] + "x" + text[e:]
-            for i in range(s, e):
-                yield text[:i] + text[i + 1 :]
         elif t.type == T.COMMENT:
             yield text[:s] + text[e:]
             yield text[:s] + "#" + text[e:]
         elif t.type == T.NAME and not keyword.iskeyword(t.string) and t.string != "a":
-            for nm in ("a", t.string[0], "é", "\uff41"):
+            for nm in ("a", t.string[0], "é", "\uff41", "case"):
                 if nm != t.string:
                     yield text[:s] + nm + text[e:]
         elif t.type == T.OP and t.string not in _SIMPLE_OPS and t.string not in ("->", ":=", "...", "!", "@"):
